@@ -250,19 +250,28 @@ func shrinkCase(c Case, o *common.Options, wantKey string, wantDiv bool) Case {
 	return mk(ddmin(idx, bad))
 }
 
-func evalCases(cases []Case, o *common.Options, rep *common.Report) error {
-	var model []string
-	if o.Driver != "" {
-		var lines []string
-		for _, c := range cases {
-			lines = append(lines, c.lines()...)
-		}
-		var err error
-		model, err = common.RunDriverOnce(o.Driver, lines)
-		if err != nil {
-			return err
-		}
+// modelOf runs the driver on a batch of cases (nil without a driver).
+func modelOf(cases []Case, o *common.Options) ([]string, error) {
+	if o.Driver == "" {
+		return nil, nil
 	}
+	var lines []string
+	for _, c := range cases {
+		lines = append(lines, c.lines()...)
+	}
+	return common.RunDriverOnce(o.Driver, lines)
+}
+
+func evalCases(cases []Case, o *common.Options, rep *common.Report) error {
+	model, err := modelOf(cases, o)
+	if err != nil {
+		return err
+	}
+	return consume(cases, model, o, rep)
+}
+
+// consume judges a batch against the model's answers.
+func consume(cases []Case, model []string, o *common.Options, rep *common.Report) error {
 	pos := 0
 	for _, c := range cases {
 		n := len(c.Ops) + 1
@@ -289,6 +298,11 @@ func evalCases(cases []Case, o *common.Options, rep *common.Report) error {
 		}
 		shrinkBudget := rep.Distribution["swf:shrunk"] < 5
 		if pan != nil {
+			if shrinkBudget {
+				rep.Count("swf:shrunk")
+				c = shrinkCase(c, o, "panic", false)
+				_, pan = runImpl(c)
+			}
 			rep.Fail(common.OracleFailure{Engine: "swf", Key: "panic", Case: c, Detail: fmt.Sprint(pan)})
 			rep.Diverge(common.Divergence{Engine: "swf", Case: c, Impl: "panic: " + fmt.Sprint(pan), Model: strings.Join(mo, "")})
 			continue
@@ -377,6 +391,44 @@ func exhaustive(size uint64, al []uint64, depth int, f func([]Case) error) error
 	}
 }
 
+// exhaustivePar: the driver runs of the chunks of one exhaustive enumeration go through a small worker pool;
+// the chunks are judged in order.
+func exhaustivePar(size uint64, al []uint64, depth int, o *common.Options, rep *common.Report) error {
+	type job struct {
+		cases []Case
+		model []string
+		err   error
+		done  chan struct{}
+	}
+	sem := make(chan struct{}, 6)
+	var jobs []*job
+	err := exhaustive(size, al, depth, func(cs []Case) error {
+		j := &job{cases: append([]Case(nil), cs...), done: make(chan struct{})}
+		jobs = append(jobs, j)
+		sem <- struct{}{}
+		go func() {
+			j.model, j.err = modelOf(j.cases, o)
+			<-sem
+			close(j.done)
+		}()
+		return nil
+	})
+	if err != nil {
+		return err
+	}
+	for _, j := range jobs {
+		<-j.done
+		if j.err != nil {
+			return j.err
+		}
+		if err := consume(j.cases, j.model, o, rep); err != nil {
+			return err
+		}
+		j.cases, j.model = nil, nil
+	}
+	return nil
+}
+
 func main() {
 	o := common.ParseFlags()
 	// the udpsess engine needs testing/synctest's fake clock, which needs a *testing.T: run everything inside one
@@ -441,7 +493,7 @@ func realMain(o *common.Options, t *testing.T) int {
 				ring <<= 1
 			}
 			al := []uint64{0, 63, 64, size - 1, size, size + 64, ring - 1, ring + size}
-			err = exhaustive(size, al, depth, func(cs []Case) error { return evalCases(cs, o, rep) })
+			err = exhaustivePar(size, al, depth, o, rep)
 		}
 		if err == nil {
 			probeExcludedSizes(o, rep)
